@@ -8,11 +8,8 @@ HARNESS = 'C16_edge.cc'
 def I(x): return x if is_sym(x) else z3.IntVal(sgn64(x))
 
 def agg(ck, name, queries, TO, found):
-    out = smt.parallel_check([(i, list(a) + list(g)) for i, (a, g) in enumerate(queries)], timeout_s=TO)
-    bad = [i for i in out if out[i][0] != 'unsat']
-    st = 'unsat' if not bad else ('sat' if any(out[i][0] == 'sat' for i in bad) else 'unknown')
-    ck.obligation('%s (%d path queries)' % (name, len(queries)), st, sum(v[1] for v in out.values()), True, {'model': out[bad[0]][2]} if bad else None)
-    if st == 'sat': found.append((name, out[[i for i in bad if out[i][0] == 'sat'][0]][2]))
+    st, mdl = smt.agg_core(ck, name, queries, TO)
+    if st == 'sat': found.append((name, mdl))
 
 def check_c16(ck, tier, replay=None):
     if replay: print('re-run ./check C16'); return 0
